@@ -81,7 +81,7 @@ func checkC02(r *Result) {
 	r.Info["guarded_index_div_sites"] = guardedTotal
 	r.Info["guard_kinds"] = how
 
-	ruleOf := map[string]string{"panic": "FAIL-PANIC", "must": "FAIL-PANIC", "assert": "FAIL-PANIC", "index": "FAIL-INDEX", "div": "FAIL-DIV"}
+	ruleOf := map[string]string{"panic": "FAIL-PANIC", "must": "FAIL-PANIC", "range": "FAIL-PANIC", "assert": "FAIL-PANIC", "index": "FAIL-INDEX", "div": "FAIL-DIV"}
 	for _, o := range local {
 		t, ok := c02Table[o.Key()]
 		where := P.Pos(o.Pos) + " reached via " + PathTo(reach, TopFunc(o.Fn))
